@@ -373,13 +373,14 @@ func (s *State) String() string {
 }
 
 // join computes a weak join: constraints of either side entailed by the other.
-func join(a, b *State) *State {
-	if a == nil || a.dead {
-		return b.clone()
-	}
-	if b == nil || b.dead {
-		return a.clone()
-	}
+// unify brings two states into a common vocabulary: values and memory cells
+// on which they differ are equated, on each side, with a merge term, and each
+// side is projected onto the terms the other side constrains too.  The merge
+// term of a memory cell has a stable name (one per cell), so that the
+// constraints found for it at one visit of a loop head are recognised at the
+// next (widening compares constraints term by term); a side that already uses
+// that name for an older merge has it renamed first.
+func unify(a, b *State) (*State, *State, map[vkey]AV, map[cellKey]AV) {
 	// unify differing integer / string values through fresh terms
 	a, b = a.clone(), b.clone()
 	merged := map[vkey]AV{}
@@ -425,7 +426,8 @@ func join(a, b *State) *State {
 			}
 		}
 	}
-	// memory cells holding different integers: merge through a fresh term too
+	// memory cells holding different integers: merge through a term with a
+	// stable name
 	mergedCells := map[cellKey]AV{}
 	for k, v := range a.cells {
 		w, ok := b.cells[k]
@@ -434,7 +436,13 @@ func join(a, b *State) *State {
 		}
 		if x, isI := v.(AInt); isI {
 			if y, isI := w.(AInt); isI {
-				t := newTerm("j.cell" + k.path)
+				t := termFor(fmt.Sprintf("jcell|%d|%p|%s", k.ctx, k.alloc, k.path), "j.cell"+k.path)
+				for _, side := range []*State{a, b} {
+					if side.mentions(t) {
+						side.rename(t, newTerm("j.cell"+k.path+"'"))
+					}
+				}
+				x, y = a.cells[k].(AInt), b.cells[k].(AInt)
 				a.addEQ(tvar(t).sub(x.l))
 				b.addEQ(tvar(t).sub(y.l))
 				mergedCells[k] = AInt{tvar(t)}
@@ -454,6 +462,97 @@ func join(a, b *State) *State {
 			b.forget(t)
 		}
 	}
+	return a, b, merged, mergedCells
+}
+
+func renameLin(l Lin, old, nw Term) Lin {
+	v, ok := l.c[old]
+	if !ok {
+		return l
+	}
+	n := l.clone()
+	delete(n.c, old)
+	n.c[nw] += v
+	if n.c[nw] == 0 {
+		delete(n.c, nw)
+	}
+	return n
+}
+
+func renameAV(av AV, old, nw Term) AV {
+	switch x := av.(type) {
+	case AInt:
+		return AInt{renameLin(x.l, old, nw)}
+	case AStr:
+		if x.obj == old {
+			x.obj = nw
+		}
+		x.off, x.n = renameLin(x.off, old, nw), renameLin(x.n, old, nw)
+		return x
+	case ATuple:
+		el := make([]AV, len(x.elems))
+		for i, e := range x.elems {
+			el[i] = renameAV(e, old, nw)
+		}
+		return ATuple{el}
+	}
+	return av
+}
+
+// mentions reports whether the state refers to the term anywhere.
+func (s *State) mentions(t Term) bool {
+	for _, c := range s.cons {
+		if _, ok := c.l.c[t]; ok {
+			return true
+		}
+	}
+	for _, d := range s.dis {
+		if _, ok := d.c[t]; ok {
+			return true
+		}
+	}
+	for _, f := range s.bytes {
+		if _, ok := f.off.c[t]; ok || f.obj == t {
+			return true
+		}
+	}
+	lt := liveTerms([]*State{{vals: s.vals, cells: s.cells}})
+	return lt[t]
+}
+
+// rename replaces a term by another one everywhere in the state.
+func (s *State) rename(old, nw Term) {
+	if nonneg[old] {
+		nonneg[nw] = true
+	}
+	for i, c := range s.cons {
+		s.cons[i].l = renameLin(c.l, old, nw)
+	}
+	for i, d := range s.dis {
+		s.dis[i] = renameLin(d, old, nw)
+	}
+	for i, f := range s.bytes {
+		if f.obj == old {
+			s.bytes[i].obj = nw
+		}
+		s.bytes[i].off = renameLin(f.off, old, nw)
+	}
+	for k, v := range s.vals {
+		s.vals[k] = renameAV(v, old, nw)
+	}
+	for k, v := range s.cells {
+		s.cells[k] = renameAV(v, old, nw)
+	}
+}
+
+func join(a, b *State) *State {
+	if a == nil || a.dead {
+		return b.clone()
+	}
+	if b == nil || b.dead {
+		return a.clone()
+	}
+	a, b, merged, mergedCells := unify(a, b)
 	r := newState()
 	keysA, keysB := conKeys(a.cons), conKeys(b.cons)
 	half := func(from []Con, other []Con, otherKeys map[string]bool) {
